@@ -70,6 +70,22 @@ REP = r'''
         assert!(cmp(&neg, &pos) == Some(Ordering::Less));
         assert!(cmp(&neg, &neg) == Some(Ordering::Equal));
     }
+
+    /// a SMALL integer carried as a big integer (the result of big-integer arithmetic) against every native integer:
+    /// ordered by value, both operand orders
+    #[kani::proof]
+    #[kani::unwind(8)]
+    fn c14_rep_small_bigint_vs_native() {
+        let five = SparqlNumber::BigInt(num_bigint::BigInt::from(5i32));
+        let minus_three = SparqlNumber::BigInt(num_bigint::BigInt::from(-3i32));
+        let v: isize = kani::any();
+        let n = SparqlNumber::NativeInt(v);
+        assert!(cmp(&five, &n) == Some(5isize.cmp(&v)));
+        assert!(cmp(&n, &five) == Some(v.cmp(&5isize)));
+        assert!(cmp(&minus_three, &n) == Some((-3isize).cmp(&v)));
+        assert!(cmp(&n, &minus_three) == Some(v.cmp(&-3isize)));
+        assert!(cmp(&minus_three, &five) == Some(Ordering::Less));
+    }
 '''
 
 
